@@ -48,9 +48,12 @@ def r1_opcode_map(rule, root=None):
             rule.bad("%s|missing" % v, "no opcode for RegOp::%s" % v, A.where(BC, ms[0]))
 
 
-def new_fn(root=None):
-    """Bytecode::new with its small local helpers (other than the register-byte writer) read in place"""
+def new_fn(root=None, inline=False):
+    """Bytecode::new; with `inline`, its small local helpers (other than the register-byte writer) are read
+    in place"""
     fn0 = A.find_fn(BC, "new", self_ty="Bytecode", root=root)
+    if not inline:
+        return fn0
     try:
         keep = (store_closure(fn0)[0],)
     except A.AnchorLost:
@@ -108,8 +111,28 @@ def _arm_facts(arm, names, store="store_reg"):
     return facts
 
 
+def _appended(fn):
+    """texts of the words appended to `data` per op, in order (push / extend of an array)"""
+    loops = [l for l in A.find(fn["body"], "For") if str(A.ftxt(l["iter"])) == "t.iter_asm()"]
+    appended = []
+    if len(loops) == 1:
+        for s_ in loops[0]["body"]["stmts"]:
+            e = A.strip(A.stmt_expr(s_) or {})
+            if e.get("k") == "MethodCall" and A.ident(A.strip(e["recv"])) == "data":
+                if e["method"] == "push" and len(e["args"]) == 1:
+                    appended.append(str(A.ftxt(e["args"][0])))
+                elif e["method"] in ("extend", "extend_from_slice") and len(e["args"]) == 1:
+                    arr = A.strip(e["args"][0])
+                    arr = A.strip(arr["e"]) if arr.get("k") == "Ref" else arr
+                    if arr.get("k") == "Array":
+                        appended += [str(A.ftxt(x)) for x in arr["elems"]]
+                    else:
+                        appended.append("?" + str(A.ftxt(arr)))
+    return appended
+
+
 def r2_packing(rule, root=None):
-    fn = new_fn(root)
+    fn = new_fn(root, inline=True)
     ms = O.match_on(fn, "RegOp", min_arms=20)
     if len(ms) != 1:
         raise A.AnchorLost("match over RegOp in Bytecode::new")
@@ -179,8 +202,7 @@ def r2_packing(rule, root=None):
     for s_ in A.find(fn["body"], "Let"):
         if A.binding_name(s_["pat"]) == "imm" and s_.get("init") is not None:
             init = A.strip(s_["init"])
-    pushes = [str(A.ftxt(c["args"][0])) for c in A.find(fn["body"], "MethodCall") if c["method"] == "push" and A.ident(A.strip(c["recv"])) == "data" and len(c["args"]) == 1]
-    push_imm = [p for p in pushes if p.startswith("imm")]
+    push_imm = [p for p in _appended(fn) if p.startswith("imm")]
     filler = None
     if forms == {"Some"} and init is not None and A.ident(init) == "None" and len(push_imm) == 1:
         m_ = re.fullmatch(r"imm\.unwrap_or\((\w+)\)", push_imm[0])
